@@ -218,6 +218,19 @@ func TestC06_Shipped(t *testing.T) {
 
 type C06Gen struct {
 	Lines []C13Line `json:"lines"`
+	// Earlier: appends to variables of the built-in table made by another profile that is
+	// processed first in the same process; they are that profile's business only
+	Earlier []C13Line `json:"earlier,omitempty"`
+}
+
+func (c C06Gen) earlierText() string {
+	var b strings.Builder
+	b.WriteString("abi <abi/4.0>,\n\ninclude <tunables/global>\n\n")
+	for _, l := range c.Earlier {
+		fmt.Fprintf(&b, "@{%s} += %s\n", l.Name, strings.Join(l.Values, " "))
+	}
+	b.WriteString("@{exec_path} = @{bin}/earlier @{lib}/earlier\nprofile earlier @{exec_path} {\n  include <abstractions/base>\n\n  @{exec_path} mr,\n\n  include if exists <local/earlier>\n}\n")
+	return b.String()
 }
 
 func (c C06Gen) Text() string {
@@ -293,6 +306,11 @@ func genC06Case(t *rapid.T) C06Gen {
 		}
 		c.Lines = append(c.Lines, C13Line{Kind: "var", Name: "exec_path", Values: av})
 	}
+	if rapid.Bool().Draw(t, "earlier") {
+		for _, v := range subsetOrdered(t, "earliervars", []string{"bin", "lib", "multiarch", "sbin"}, 1, 2) {
+			c.Earlier = append(c.Earlier, C13Line{Kind: "var", Name: v, Values: []string{"/opt/acme/" + v}})
+		}
+	}
 	return c
 }
 
@@ -334,6 +352,11 @@ func c06GenOracle(c C06Gen) (bool, error) {
 				err = fmt.Errorf("userspace builder panicked: %v", p)
 			}
 		}()
+		if len(c.Earlier) > 0 {
+			if _, err := builder.Run(prebuild.RootApparmord.Join("earlier"), c.earlierText()); err != nil {
+				return "", fmt.Errorf("on the earlier profile: %v\n%s", err, c.earlierText())
+			}
+		}
 		return builder.Run(prebuild.RootApparmord.Join("foo"), text)
 	}()
 	c06mu.Unlock()
@@ -361,7 +384,7 @@ func TestC06_Generated(t *testing.T) {
 	if err := haveBins(); err != nil {
 		t.Fatalf("INFRA: %v", err)
 	}
-	ev := NewEv(t, "C06", "generated", "generated preambles (0-2 local helper variables, @{exec_path} defined with 1-3 values and 0-2 '+=' appends of 1-2 values, comments in between, values of 1-4 parts drawn from the shipped tunables - @{bin}, @{lib}, @{multiarch}, @{arch}, @{version}, @{int}, @{user_share_dirs}, @{HOME}, @{sbin} - literals, alternations and classes) run through the userspace builder in-process; same oracle as the shipped part, over upstream + shipped tunables. Non-trivial: >= 2 values, an append or a nested variable; distinct by text")
+	ev := NewEv(t, "C06", "generated", "generated preambles (0-2 local helper variables, @{exec_path} defined with 1-3 values and 0-2 '+=' appends of 1-2 values, comments in between, in half of the cases preceded in the same process by another profile that appends to 1-2 variables of the built-in table, values of 1-4 parts drawn from the shipped tunables - @{bin}, @{lib}, @{multiarch}, @{arch}, @{version}, @{int}, @{user_share_dirs}, @{HOME}, @{sbin} - literals, alternations and classes) run through the userspace builder in-process; same oracle as the shipped part, over upstream + shipped tunables. Non-trivial: >= 2 values, an append or a nested variable; distinct by text")
 	rapid.Check(t, func(t *rapid.T) {
 		c := genC06Case(t)
 		if key := c06Excluded(c); key != "" {
